@@ -651,6 +651,17 @@ func (idx *indexer) valBuffer(vLen int) []byte {
 	return idx._val[:vLen]
 }
 
+// kvtAt returns the n-th slot of the bulk under preparation. An injective
+// index emits up to two entries per tx entry (the new target key and the
+// logical delete of the stale one), so the number of slots needed may exceed
+// maxTxEntries*maxBulkSize: slots are added on demand
+func (idx *indexer) kvtAt(n int) *tbtree.KVT {
+	for n >= len(idx._kvs) {
+		idx._kvs = append(idx._kvs, &tbtree.KVT{})
+	}
+	return idx._kvs[n]
+}
+
 func (idx *indexer) indexSince(txID uint64) error {
 	idx.bulkMutex.Lock()
 	defer idx.bulkMutex.Unlock()
@@ -720,9 +731,10 @@ func (idx *indexer) indexBulkSince(txID uint64, restarting bool) error {
 
 			// without mappers targetKey is a slice of idx.tx's key buffer, which the next readTx of this
 			// bulk overwrites: the key must be copied
-			idx._kvs[indexableEntries].K = append(idx._kvs[indexableEntries].K[:0], targetKey...)
-			idx._kvs[indexableEntries].V = b[:n]
-			idx._kvs[indexableEntries].T = txID + uint64(i)
+			kvt := idx.kvtAt(indexableEntries)
+			kvt.K = append(kvt.K[:0], targetKey...)
+			kvt.V = b[:n]
+			kvt.T = txID + uint64(i)
 
 			indexableEntries++
 			txIndexedEntries++
@@ -794,9 +806,10 @@ func (idx *indexer) indexBulkSince(txID uint64, restarting bool) error {
 
 					n := serializeIndexableEntry(b[:], txmd, prevEntry, kvmd.Bytes())
 
-					idx._kvs[indexableEntries].K = targetPrevKey
-					idx._kvs[indexableEntries].V = b[:n]
-					idx._kvs[indexableEntries].T = txID + uint64(i)
+					kvt := idx.kvtAt(indexableEntries)
+					kvt.K = targetPrevKey
+					kvt.V = b[:n]
+					kvt.T = txID + uint64(i)
 
 					indexableEntries++
 					txIndexedEntries++
